@@ -16,17 +16,30 @@
 (* from the sections of that mutex, a read-locked one only the writers;    *)
 (* a channel receive is enabled only after the send: happens-before).      *)
 (*                                                                         *)
-(* Fixed = FALSE: the code as written.  Fixed = TRUE: the intended design  *)
-(* (every shared location accessed under its mutex or atomically).  The    *)
-(* accesses by which the written code deviates are listed in Deviation;    *)
-(* RaceOnlyAtDeviation says every race of the written code involves one.   *)
+(* The code as found leaves the intended discipline (every shared location *)
+(* accessed under its mutex or atomically) in eight groups of accesses:    *)
+(*   getnb    Round.GetNotarizedBlocks returns the slice without r.mutex   *)
+(*   pbslice  the slice returned by Round.GetProposedBlocks is walked by   *)
+(*            its callers after the read lock is released                  *)
+(*   rclone   Round.Clone reads atomically-written fields plainly and the  *)
+(*            timeout counter without its mutex                            *)
+(*   bstate   Block.SetBlockState / GetBlockState use no mutex             *)
+(*   vstatus  Block.SetVerificationStatus / GetVerificationStatus: none    *)
+(*   bclone   Block.Clone reads ticket / status / state fields outside     *)
+(*            their mutexes                                                *)
+(*   bsummary Block.GetSummary reads state-hash / previous-block fields    *)
+(*            outside their mutexes                                        *)
+(*   vt       ValidateTransactions: plain cancel / roundMismatch flags     *)
+(* FixedGroups = the groups repaired in the code being described (all of   *)
+(* them = the intended design).  Deviation lists the accesses of the       *)
+(* groups NOT repaired; RaceOnlyAtDeviation says every race involves one.  *)
 (* On the real code the observer of a race is the Go race detector: every  *)
 (* scenario is executed concurrently on real objects (harness/drivers/     *)
 (* races); this model enumerates the scenarios and predicts the verdict.   *)
 (***************************************************************************)
 EXTENDS Integers, Sequences, FiniteSets, TLC
 
-CONSTANTS Fixed, Scenarios
+CONSTANTS FixedGroups, Scenarios
 
 L(m)  == [k |-> "lock",    x |-> m, m |-> "W", at |-> FALSE]
 U(m)  == [k |-> "unlock",  x |-> m, m |-> "W", at |-> FALSE]
@@ -41,26 +54,28 @@ Rcv(c) == [k |-> "recv", x |-> c, m |-> "R", at |-> FALSE]
 
 Locked(m, body)  == <<L(m)>> \o body \o <<U(m)>>
 RLocked(m, body) == <<RL(m)>> \o body \o <<RU(m)>>
-\* a location the written code reads plainly (or under the wrong mutex) and the intended design reads atomically
-PlainOrAtomic(f) == IF Fixed THEN ARd(f) ELSE Rd(f)
+Groups == {"getnb", "pbslice", "rclone", "bstate", "vstatus", "bclone", "bsummary", "vt"}
+Fx(g) == g \in FixedGroups
+\* a location a deviating group reads plainly and the intended design reads atomically
+PlainOrAtomic(g, f) == IF Fx(g) THEN ARd(f) ELSE Rd(f)
 
 -----------------------------------------------------------------------------
 (* round.Round: mutex rm (RWMutex), timeoutCounter.mutex tcm                *)
 \* addProposedBlock: scans, replaces or appends, sorts by rank (moves elements)
 AddProposed == <<Rd("r.pb"), Rd("r.pb.el"), Wr("r.pb"), Wr("r.pb.el")>>
-\* timeoutCounter fields as read by Clone
+\* timeoutCounter fields as read by Clone (the votes map itself is shared with the clone, not copied)
 CloneTC == <<Rd("r.tc.prrs"), Rd("r.tc.perm"), Rd("r.tc.count"), Rd("r.tc.votes")>>
 
 RoundOp(o) ==
   CASE o = "R.GetNotarizedBlocks" ->
-         IF Fixed THEN RLocked("rm", <<Rd("r.nb")>>) ELSE <<Rd("r.nb")>>       \* returns the slice without the lock
+         IF Fx("getnb") THEN RLocked("rm", <<Rd("r.nb")>>) ELSE <<Rd("r.nb")>>       \* returns the slice without the lock
     [] o = "R.AddNotarizedBlock" ->
          Locked("rm", AddProposed \o <<Rd("r.nb"), ARd("r.phase"), AWr("r.phase"), Rd("r.Block"), Wr("r.Block"), Wr("r.nb")>>)
     [] o = "R.UpdateNotarizedBlock" -> Locked("rm", <<Rd("r.pb"), Rd("r.pb.el"), Wr("r.pb.el"), Rd("r.nb")>>)
     [] o = "R.AddProposedBlock" -> Locked("rm", AddProposed)
     [] o = "R.GetProposedBlocks+range" ->
          \* the slice escapes the read lock: the caller walks the shared backing array
-         IF Fixed THEN RLocked("rm", <<Rd("r.pb"), Rd("r.pb.el")>>) ELSE RLocked("rm", <<Rd("r.pb")>>) \o <<Rd("r.pb.el")>>
+         IF Fx("pbslice") THEN RLocked("rm", <<Rd("r.pb"), Rd("r.pb.el")>>) ELSE RLocked("rm", <<Rd("r.pb")>>) \o <<Rd("r.pb.el")>>
     [] o = "R.GetHeaviestNotarizedBlock" -> RLocked("rm", <<Rd("r.nb")>>)
     [] o = "R.GetBestRankedNotarizedBlock" -> RLocked("rm", <<Rd("r.nb")>>)    \* sorts an already rank-sorted slice: nothing moves
     [] o = "R.GetBestRankedProposedBlock" -> RLocked("rm", <<Rd("r.pb"), Rd("r.pb.el")>>)
@@ -93,18 +108,18 @@ RoundOp(o) ==
     [] o = "R.GetSoftTimeoutCount" -> <<ARd("r.stoc")>>
     [] o = "R.SetVrfStartTime" -> <<AWr("r.vrfStart")>>
     [] o = "R.GetVrfStartTime" -> <<ARd("r.vrfStart")>>
-    [] o = "R.AddTimeoutVote" -> Locked("tcm", <<Rd("r.tc.votes"), Wr("r.tc.votes")>>)
+    [] o = "R.AddTimeoutVote" -> Locked("tcm", <<Rd("r.tc.votes"), Wr("r.tc.votes.el")>>)    \* writes INTO the map
     [] o = "R.IncrementTimeoutCount" ->
-         Locked("tcm", <<Rd("r.tc.votes"), Rd("r.tc.perm"), Wr("r.tc.prrs"), Wr("r.tc.perm"), Rd("r.tc.count"), Wr("r.tc.votes"), Wr("r.tc.count")>>)
+         Locked("tcm", <<Rd("r.tc.votes"), Rd("r.tc.votes.el"), Rd("r.tc.perm"), Wr("r.tc.prrs"), Wr("r.tc.perm"), Rd("r.tc.count"), Wr("r.tc.votes"), Wr("r.tc.count")>>)
     [] o = "R.SetTimeoutCount" -> Locked("tcm", <<Rd("r.tc.count"), Wr("r.tc.count")>>)
     [] o = "R.GetTimeoutCount" -> Locked("tcm", <<Rd("r.tc.count")>>)
     [] o = "R.Clone" ->
          \* copies the struct under r.mutex only: atomically-written fields are read plainly and
          \* the timeout counter is read without its own mutex
-         RLocked("rm", <<Rd("r.minerPerm"), Rd("r.pb"), Rd("r.pb.el"), Rd("r.nb"), Rd("r.shares"), PlainOrAtomic("r.seed"),
-                         Rd("r.Block"), Rd("r.BlockHash"), Rd("r.VRFOutput"), PlainOrAtomic("r.phase"), Rd("r.fin"),
-                         PlainOrAtomic("r.stoc"), PlainOrAtomic("r.vrfStart")>>
-                       \o (IF Fixed THEN Locked("tcm", CloneTC) ELSE CloneTC))
+         RLocked("rm", <<Rd("r.minerPerm"), Rd("r.pb"), Rd("r.pb.el"), Rd("r.nb"), Rd("r.shares"), PlainOrAtomic("rclone", "r.seed"),
+                         Rd("r.Block"), Rd("r.BlockHash"), Rd("r.VRFOutput"), PlainOrAtomic("rclone", "r.phase"), Rd("r.fin"),
+                         PlainOrAtomic("rclone", "r.stoc"), PlainOrAtomic("rclone", "r.vrfStart")>>
+                       \o (IF Fx("rclone") THEN Locked("tcm", CloneTC) ELSE CloneTC))
 
 RoundOps == {"R.GetNotarizedBlocks", "R.AddNotarizedBlock", "R.UpdateNotarizedBlock", "R.AddProposedBlock",
   "R.GetProposedBlocks+range", "R.GetHeaviestNotarizedBlock", "R.GetBestRankedNotarizedBlock", "R.GetBestRankedProposedBlock",
@@ -119,8 +134,8 @@ RoundOps == {"R.GetNotarizedBlocks", "R.AddNotarizedBlock", "R.UpdateNotarizedBl
 (* block.Block: ticketsMutex tm, stateStatusMutex ssm, stateMutex sm,       *)
 (* mutexTxns txm, uniqueBlockExtMutex ubm                                   *)
 \* a location the written code accesses with no synchronisation; the intended design puts it under mutex m
-Bare(m, body) == IF Fixed THEN Locked(m, body) ELSE body
-BareR(m, body) == IF Fixed THEN RLocked(m, body) ELSE body
+Bare(g, m, body) == IF Fx(g) THEN Locked(m, body) ELSE body
+BareR(g, m, body) == IF Fx(g) THEN RLocked(m, body) ELSE body
 
 BlockOp(o) ==
   CASE o = "B.AddVerificationTicket" -> Locked("tm", <<Rd("b.vt"), Wr("b.vt")>>)
@@ -139,10 +154,10 @@ BlockOp(o) ==
     [] o = "B.GetStateStatus" -> RLocked("ssm", <<Rd("b.stateStatus")>>)
     [] o = "B.IsStateComputed" -> RLocked("ssm", <<Rd("b.stateStatus")>>)
     [] o = "B.SetStateStatus" -> Locked("ssm", <<Wr("b.stateStatus")>>)
-    [] o = "B.SetBlockState" -> Bare("tm", <<Wr("b.blockState")>>)                    \* no mutex at all
-    [] o = "B.GetBlockState" -> BareR("tm", <<Rd("b.blockState")>>)
-    [] o = "B.SetVerificationStatus" -> Bare("tm", <<Wr("b.verStatus")>>)             \* no mutex at all
-    [] o = "B.GetVerificationStatus" -> BareR("tm", <<Rd("b.verStatus")>>)
+    [] o = "B.SetBlockState" -> Bare("bstate", "tm", <<Wr("b.blockState")>>)                    \* no mutex at all
+    [] o = "B.GetBlockState" -> BareR("bstate", "tm", <<Rd("b.blockState")>>)
+    [] o = "B.SetVerificationStatus" -> Bare("vstatus", "tm", <<Wr("b.verStatus")>>)             \* no mutex at all
+    [] o = "B.GetVerificationStatus" -> BareR("vstatus", "tm", <<Rd("b.verStatus")>>)
     [] o = "B.SetClientState" -> Locked("sm", <<Wr("b.cs"), Wr("b.csHash")>>)
     [] o = "B.ComputeTxnMap" -> Locked("txm", <<Wr("b.txnsMap")>>)
     [] o = "B.HasTransaction" -> RLocked("txm", <<Rd("b.txnsMap")>>)
@@ -150,11 +165,11 @@ BlockOp(o) ==
     [] o = "B.GetUniqueBlockExtensions" -> RLocked("ubm", <<Rd("b.ube")>>)
     [] o = "B.SetRoundRandomSeed" -> <<AWr("b.rrs")>>
     [] o = "B.GetRoundRandomSeed" -> <<ARd("b.rrs")>>
-    [] o = "B.GetSummary" -> BareR("tm", <<Rd("b.prev")>>) \o <<ARd("b.rrs")>> \o BareR("sm", <<Rd("b.csHash")>>)
+    [] o = "B.GetSummary" -> BareR("bsummary", "tm", <<Rd("b.prev")>>) \o <<ARd("b.rrs")>> \o BareR("bsummary", "sm", <<Rd("b.csHash")>>)
     [] o = "B.Clone" ->
          \* copies the struct: ticket, status and state-hash fields are read outside their mutexes
-         <<PlainOrAtomic("b.rrs")>> \o BareR("tm", <<Rd("b.prev"), Rd("b.prevvt"), Rd("b.vt"), Rd("b.isNotarized"), Rd("b.blockState"), Rd("b.verStatus")>>)
-           \o BareR("sm", <<Rd("b.csHash")>>) \o BareR("ssm", <<Rd("b.stateStatus")>>)
+         <<PlainOrAtomic("bclone", "b.rrs")>> \o BareR("bclone", "tm", <<Rd("b.prev"), Rd("b.prevvt"), Rd("b.vt"), Rd("b.isNotarized"), Rd("b.blockState"), Rd("b.verStatus")>>)
+           \o BareR("bclone", "sm", <<Rd("b.csHash")>>) \o BareR("bclone", "ssm", <<Rd("b.stateStatus")>>)
            \o RLocked("txm", <<Rd("b.txnsMap")>>) \o RLocked("sm", <<Rd("b.cs"), Rd("b.csHash")>>) \o RLocked("ubm", <<Rd("b.ube")>>)
 
 BlockOps == {"B.AddVerificationTicket", "B.MergeVerificationTickets", "B.GetVerificationTickets", "B.VerificationTicketsSize",
@@ -170,14 +185,14 @@ BlockOps == {"B.AddVerificationTicket", "B.MergeVerificationTickets", "B.GetVeri
 CrossOp(o) ==
   CASE o = "X.Round.AddNotarizedBlock(b)" ->
          \* under r.mutex: b.SetBlockNotarized() (tickets mutex), b.SetBlockState() (no mutex)
-         Locked("rm", Locked("tm", <<Wr("b.isNotarized")>>) \o Bare("tm", <<Wr("b.blockState")>>))
+         Locked("rm", Locked("tm", <<Wr("b.isNotarized")>>) \o Bare("bstate", "tm", <<Wr("b.blockState")>>))
 CrossOps == {"X.Round.AddNotarizedBlock(b)"}
 
 -----------------------------------------------------------------------------
 (* miner.Chain.ValidateTransactions: the calling goroutine and the workers  *)
 (* (one per batch) share the plain booleans cancel and roundMismatch and    *)
 (* the result channel.                                                      *)
-Flag(rw, f) == IF Fixed THEN (IF rw = "R" THEN ARd(f) ELSE AWr(f)) ELSE (IF rw = "R" THEN Rd(f) ELSE Wr(f))
+Flag(rw, f) == IF Fx("vt") THEN (IF rw = "R" THEN ARd(f) ELSE AWr(f)) ELSE (IF rw = "R" THEN Rd(f) ELSE Wr(f))
 VTOp(o) ==
   CASE o = "V.main" -> <<Rcv("v.ch"), Flag("R", "v.roundMismatch"), Rcv("v.ch"), Flag("R", "v.roundMismatch")>>
     [] o = "V.worker(valid)" -> <<Flag("R", "v.cancel"), Flag("R", "v.cancel"), Snd("v.ch")>>
@@ -188,14 +203,17 @@ VTOps == {"V.main", "V.worker(valid)", "V.worker(invalid txn)", "V.worker(round 
 Steps(o) == IF o \in RoundOps THEN RoundOp(o) ELSE IF o \in BlockOps THEN BlockOp(o)
             ELSE IF o \in CrossOps THEN CrossOp(o) ELSE VTOp(o)
 
-\* the accesses by which the code as written leaves the intended discipline
-Deviation == {<<"R.GetNotarizedBlocks", "r.nb">>, <<"R.GetProposedBlocks+range", "r.pb.el">>}
-  \cup {<<"R.Clone", f>> : f \in {"r.seed", "r.phase", "r.stoc", "r.vrfStart", "r.tc.prrs", "r.tc.perm", "r.tc.count", "r.tc.votes"}}
-  \cup {<<o, "b.blockState">> : o \in {"B.SetBlockState", "B.GetBlockState", "B.Clone", "X.Round.AddNotarizedBlock(b)"}}
-  \cup {<<o, "b.verStatus">> : o \in {"B.SetVerificationStatus", "B.GetVerificationStatus", "B.Clone"}}
-  \cup {<<"B.Clone", f>> : f \in {"b.rrs", "b.prev", "b.prevvt", "b.vt", "b.isNotarized", "b.csHash", "b.stateStatus"}}
-  \cup {<<"B.GetSummary", "b.csHash">>, <<"B.GetSummary", "b.prev">>}
-  \cup {<<o, f>> : o \in VTOps, f \in {"v.cancel", "v.roundMismatch"}}
+\* the accesses by which each group leaves the intended discipline
+Dev(g) ==
+  CASE g = "getnb" -> {<<"R.GetNotarizedBlocks", "r.nb">>}
+    [] g = "pbslice" -> {<<"R.GetProposedBlocks+range", "r.pb.el">>}
+    [] g = "rclone" -> {<<"R.Clone", f>> : f \in {"r.seed", "r.phase", "r.stoc", "r.vrfStart", "r.tc.prrs", "r.tc.perm", "r.tc.count", "r.tc.votes"}}
+    [] g = "bstate" -> {<<o, "b.blockState">> : o \in {"B.SetBlockState", "B.GetBlockState", "X.Round.AddNotarizedBlock(b)"}}
+    [] g = "vstatus" -> {<<o, "b.verStatus">> : o \in {"B.SetVerificationStatus", "B.GetVerificationStatus"}}
+    [] g = "bclone" -> {<<"B.Clone", f>> : f \in {"b.rrs", "b.prev", "b.prevvt", "b.vt", "b.isNotarized", "b.csHash", "b.stateStatus", "b.blockState", "b.verStatus"}}
+    [] g = "bsummary" -> {<<"B.GetSummary", "b.csHash">>, <<"B.GetSummary", "b.prev">>}
+    [] g = "vt" -> {<<o, f>> : o \in VTOps, f \in {"v.cancel", "v.roundMismatch"}}
+Deviation == UNION {Dev(g) : g \in Groups \ FixedGroups}
 
 -----------------------------------------------------------------------------
 VARIABLES sc,   \* the scenario: a tuple of operation names
